@@ -11,5 +11,6 @@ INVARIANTS
   PInvCount
   PInvUnambiguous
   PInvUnambiguousPairs
+  PInvUnambiguousLookAlikes
 POSTCONDITION PEmit
 CHECK_DEADLOCK FALSE
